@@ -184,6 +184,11 @@ def is_minimal(base) -> bool:
     return _MINIMAL_WALKER is not None and isinstance(getattr(base, "body", None), _MINIMAL_WALKER)
 
 
+def _ov_size(v):
+    """Overlay width / height: a percentage (>= 10) or a fixed number of cells (< 10)."""
+    return ("relative", v) if v >= 10 else v
+
+
 class Node:
     """Model of one position of the tree: `w` is what the parent holds (possibly a Filler /
     BoxAdapter around `base`), `kids` mirrors the children (Frame: [body, header, footer] with None
@@ -336,9 +341,9 @@ class _Run:
             fp = spec.get("fp")
             if spec.get("ctor") and fp is not None and kids:
                 at = fp % len(kids)
-                base = urwid.GridFlow([c.w for c in kids], spec.get("cw", 5), spec.get("hsep", 1), spec.get("vsep", 0), "left", focus=at if spec["ctor"] == 1 else kids[at].w)
+                base = urwid.GridFlow([c.w for c in kids], spec.get("cw", 5), spec.get("hsep", 1), spec.get("vsep", 0), spec.get("ga", "left"), focus=at if spec["ctor"] == 1 else kids[at].w)
             else:
-                base = urwid.GridFlow([c.w for c in kids], spec.get("cw", 5), spec.get("hsep", 1), spec.get("vsep", 0), "left")
+                base = urwid.GridFlow([c.w for c in kids], spec.get("cw", 5), spec.get("hsep", 1), spec.get("vsep", 0), spec.get("ga", "left"))
                 if fp is not None and kids:
                     base.focus_position = fp % len(kids)
         elif k == "ListBox":
@@ -368,7 +373,7 @@ class _Run:
             bottom = self.build(spec["bottom"], "box")
             top = self.build(spec["top"], "box")
             kids = [bottom, top]
-            base = urwid.Overlay(top.w, bottom.w, "center", ("relative", spec.get("pw", 60)), "middle", ("relative", spec.get("ph", 60)))
+            base = urwid.Overlay(top.w, bottom.w, spec.get("al", "center"), _ov_size(spec.get("pw", 60)), spec.get("val", "middle"), _ov_size(spec.get("ph", 60)))
         else:
             raise core.HarnessError(f"unknown widget spec {k!r}")
         w = base
@@ -435,7 +440,7 @@ class _Run:
             base = urwid.Frame(body, header=header, footer=footer, focus_part=live.focus_position)
         elif n.kind == "Overlay":
             bottom, top = kids
-            base = urwid.Overlay(top, bottom, "center", ("relative", n.spec.get("pw", 60)), "middle", ("relative", n.spec.get("ph", 60)))
+            base = urwid.Overlay(top, bottom, n.spec.get("al", "center"), _ov_size(n.spec.get("pw", 60)), n.spec.get("val", "middle"), _ov_size(n.spec.get("ph", 60)))
         else:
             return None
         inner = n.w
@@ -1201,7 +1206,7 @@ class ContainersEngine(Engine):
         "for Overlay the only assignable focus_position is 1 (documented); 0 is treated as an invalid assignment",
         "an invalid set_focus_path may have applied a prefix of the path before raising IndexError (the statement demands 'changes nothing' only for focus_position assignment)",
         "clause 7 saves root.get_focus_path() at the start and again after every contents / Frame part edit; the `restore` step writes it back after any number of user and focus-write steps",
-        "Overlay contents are not mutated; only SimpleFocusListWalker is used as ListBox body",
+        "ListBox bodies are SimpleFocusListWalker, SimpleListWalker or a minimal walker with the four documented methods only (no contents edits on the latter)",
         "'child.selectable()' in clause 4 is read after the keypress returned (a GridFlow rebuilds its display widget, and with it selectable(), inside the keypress that moved onto it)",
         "any exception leaving urwid code during a step other than the IndexError of a rejected assignment / rejected focus path is reported (<call>-raised:<type>@<innermost urwid function>) and ends the history; this includes layout errors of emptied containers and of views too small for an Overlay",
         "a string or None written to focus_position / passed in set_focus_path counts as an invalid position for every container class (set_focus_path documents IndexError for 'incompatible position types')",
@@ -1265,7 +1270,7 @@ class ContainersEngine(Engine):
                 if rng.random() < 0.3:
                     spec["given"] = [rng.choice([0, 3, 6, -1]) for _ in range(3)]
             if kind == "GridFlow":
-                spec.update(cw=rng.choice([3, 5, 8]), hsep=rng.choice([0, 1]), vsep=rng.choice([0, 0, 1]))
+                spec.update(cw=rng.choice([3, 5, 8]), hsep=rng.choice([0, 1]), vsep=rng.choice([0, 0, 1]), ga=rng.choice(["left", "left", "center", "right"]))
             if kind == "ListBox":
                 spec["h"] = rng.choice([2, 3, 5])
                 spec["walker"] = rng.choice(["focus", "focus", "focus", "simple", "minimal"])
@@ -1285,8 +1290,10 @@ class ContainersEngine(Engine):
             "k": "Overlay",
             "bottom": self.gen_node(rng, "box", min(depth - 1, 1), budget, ctr, dull=dull),
             "top": self.gen_node(rng, "box", depth - 1, budget, ctr, dull=dull),
-            "pw": rng.choice([40, 60, 80]),
-            "ph": rng.choice([40, 60, 80]),
+            "pw": rng.choice([40, 60, 80, 100, 3, 8]),
+            "ph": rng.choice([40, 60, 80, 100, 1, 4]),
+            "al": rng.choice(["center", "center", "left", "right"]),
+            "val": rng.choice(["middle", "middle", "top", "bottom"]),
             "h": rng.choice([3, 5, 7]),
         }
 
